@@ -32,17 +32,20 @@ CLAIMS["C18"] = dict(
     category="proof",
     text="PARTIAL (the optimiser is assumed). Proved in Lean for every number of parameters: row i of the bounds array handed to the optimiser, "
          "np.reshape(np.append(lb, ub), (n, 2), 'F'), is (lb[i], ub[i]) (box_bounds_rows; with C order it is not: box_bounds_C_counterexample); "
-         "if the optimiser returns a point of the box it was given with objective not above the start's, fit(x, lb, ub) returns a point in [lb, ub] "
-         "with cost <= cost(x) (fit_contract_partial); if it returns its start when the gradient there is below pgtol, fit(theta*) = theta* on "
+         "if the optimiser returns a point of the box it was given (fit_in_box_partial) and - when the sensitivity it is handed is the gradient of cost, "
+         "property C07 - with objective not above the start's, fit(x, lb, ub) returns a point in [lb, ub] with cost <= cost(x) (fit_contract_partial); if it returns its start when the gradient there is below pgtol, fit(theta*) = theta* on "
          "noise-free data (fit_at_truth_partial, fit_at_truth_of_zero_residual via grad_zero_at_truth); mismatched bound lengths are rejected "
          "(fit_rejects_bad_lengths). Tied to the code on every run: scipy.optimize.minimize as seen from base_loss is wrapped and the bounds array, "
          "method, start, fun and jac it receives are compared with the Lean driver exactly; the assumed optimiser contract is observed on every call; "
          "the property itself is decided by a Lean-independent oracle on real fits over catalogue and random models and five loss classes "
          "(result inside the box exactly, recomputed cost(result) <= cost(x)(1+1e-9), fit(theta*) = theta* to 1e-5).",
-    note="ASSUMED (not proved): scipy's L-BFGS-B honours its bounds, never returns an objective above the start's, and stops at a start whose "
+    note="ASSUMED (not proved): scipy's L-BFGS-B honours its bounds, never returns an objective above the start's when it is handed the true gradient "
+         "(with a wrong gradient it does: its line search may end on a warning and the step is accepted), and stops at a start whose "
          "projected gradient is below pgtol = 1e-5. These are hypotheses (BoxDescent, StopsAtStationary) of the Lean theorems and are observed, "
          "not proved, on every generated call. The A-matrix/SLSQP branch of fit is outside the property (it cannot run: np.ndarray(A)). "
          "Trusted: Lean kernel + Mathlib, the harness wrapper of base_loss.minimize, exact float->rational conversion, driver JSON codec; the "
-         "recomputation oracle relies on pygom's integrator and loss kernels through a fresh loss object (C02/C06/C14). Known genuine defect on the "
-         "unrepaired tree: fit raises for GammaLoss with one observed state (proposed_fixes/C18-gamma-diffloss-ravel.diff).",
+         "recomputation oracle relies on pygom's integrator and loss kernels through a fresh loss object (C02/C06/C14). Genuine defects seen by this check: fit raised for GammaLoss with one "
+         "observed state (repaired in /repo, 9a6447c); fit returns a point slightly WORSE than its start for target parameters / observed states "
+         "given in non-ascending order, because the gradient handed to L-BFGS-B is permuted (the C07 index-order defect; corpus/C18/"
+         "worse-than-start-permuted-target.json; repaired by the C07 index-order patches).",
     technique="Lean 4 index arithmetic (reshape 'F') + optimiser contract as explicit hypothesis + wrapped-minimize correspondence + recomputation oracle")
